@@ -101,6 +101,26 @@ Section SOP.
   Qed.
 End SOP.
 
+(** where the single entry lives (RAM or spill file) is invisible: for every memory limit and
+    payload size the results are those of the plain static output *)
+Lemma som_step_erase {A : Type} k limit size (s : soutm A) n (o : sop A) :
+  som_erase (fst (fst (som_step k limit size (s, n) o))) = fst (so_step (som_erase s) o)
+  /\ fst (snd (som_step k limit size (s, n) o)) = snd (so_step (som_erase s) o).
+Proof.
+  destruct s as [e [[d b]|]]; destruct o as [|d'|t]; destruct e; simpl; auto.
+Qed.
+
+Theorem som_run_erase {A : Type} k limit size (ops : list (sop A)) :
+  forall s n, map fst (som_run k limit size (s, n) ops) = so_run (som_erase s) ops.
+Proof.
+  induction ops as [|o r IH]; intros s n; [reflexivity|].
+  cbn [som_run so_run].
+  destruct (som_step_erase k limit size s n o) as [H1 H2].
+  destruct (som_step k limit size (s, n) o) as [[s' n'] x].
+  destruct (so_step (som_erase s) o) as [u y].
+  cbn [fst snd map] in *. rewrite IH. subst u y. reflexivity.
+Qed.
+
 (* ------------------------------------------------------------------------- *)
 (** * 2. static input *)
 
